@@ -39,8 +39,9 @@ check('C06', 'contracts', 'exploration', 'runtime relational monitor over one re
       'Exhaustive over world sizes (quick <=64, thorough <=320 plus 98/147/196), every divisor k, colocate on/off and five cost families: all public queries of '
       'all rank views are compared with relations taken from the statement; construction also through KFACPreconditioner (float/enum); equal digests across hash seeds.',
       'For W>16 only ranks {0,1,W//2,W-1,random} are instantiated; group handles are a recorder.', 'DESIGN.md §3 C06')
-check('C14', 'simdist', 'exploration', 'exact round-trip oracle for every n up to a bound + differential symmetric-vs-dense communication on the simulated backend',
-      'Every n<=256 (thorough 768) x 4 dtypes x 4 contents x 3 layouts round-trips exactly; on simulated worlds symmetric allreduce/broadcast/bucketed equal dense bit for bit; '
+check('C14', 'simdist', 'exploration', 'exact round-trip oracle for every n up to a bound and sampled large n, with uninitialised memory poisoned + differential symmetric-vs-dense communication on the simulated backend and on real gloo ranks',
+      'Every n<=256 (thorough 1024) x 4 dtypes x 5 contents (incl. the edges of the dtype: largest finite, infinities, NaN, denormals) x 3 layouts, plus large factors of 1025..6145 rows, round-trip exactly '
+      '(new_empty poisoned with NaN meanwhile); on simulated worlds and on a few real gloo worlds symmetric allreduce/broadcast/bucketed equal dense bit for bit; '
       'invalid shapes raise NonSquareTensorError with zero backend operations.',
       'simdist stands in for the c10d backend; size-1 groups short-circuit before validation (recorded, not judged).', 'DESIGN.md §3 C14')
 check('C15', 'refmodel', 'exploration', 'differential oracle: autograd gradients and F.unfold vs the helpers, float64 reference moments',
@@ -64,23 +65,25 @@ check('C05', 'refmodel', 'exploration', 'reference-model monitor: float64 K-FAC 
       '(incl. bitwise-unchanged on non-update steps) and gradients must match the reference that preconditions with its snapshot.',
       'Documented call discipline (accumulation_steps passes per step, checkpoints at boundaries); finite histories (<=40 quick, <=200 thorough).', 'DESIGN.md §3 C05')
 
-check('C03', 'simdist', 'exploration', 'online trace monitors (collective matching M1-M4) + logical stall detection on a controlled scheduler over real multi-rank executions',
+check('C03', 'simdist', 'exploration', 'online trace monitors (collective matching M1-M4) + logical stall detection on a controlled scheduler over real multi-rank executions; offline matcher over the streamed per-rank logs of real gloo ranks started as separate interpreters with different hash seeds',
       'Generated KAISA and GPT-NeoX histories (construction, hooks, steps, state_dict/memory_usage on rank subsets, load_state_dict, reset) on 1-8 (thorough 16) simulated ranks under '
       'seven scheduler policies, late completion delivery and line-level callback-timing stress: every collective of every rank is matched online for kind, shape, dtype, root and group '
-      'membership, group creation order is compared across ranks, and a stall is a logical verdict (no runnable rank).',
+      'membership, group creation order is compared across ranks, and a stall is a logical verdict (no runnable rank). A few worlds per shard run as real gloo processes (one interpreter and one '
+      'PYTHONHASHSEED per rank, models with layers of equal cost); each rank streams what it issues to a log and the logs are matched offline, also when the world hangs.',
       'Asynchronous c10d semantics as implemented by simdist; DeepSpeed topology and Megatron layers are stand-ins; bounded histories.', 'DESIGN.md §3 C03')
 
-check('C08', 'simdist', 'exploration', 'differential oracle (bucketed vs direct group sum, position-revealing data) + backend trace segmentation monitor',
-      'Generated submission sequences over group mixtures (incl. distinct equal-size groups sharing a rank), capacities, dtypes (incl. mixed), flags and fill/flush cycles on 2-6 simulated ranks: '
+check('C08', 'simdist', 'exploration', 'differential oracle (bucketed vs direct group sum, position-revealing data) on the simulated backend and on real gloo ranks with line-level jitter + backend trace segmentation monitor',
+      'Generated submission sequences over group mixtures (incl. distinct equal-size groups sharing a rank), capacities, float and integer dtypes (incl. mixed), zero-element tensors, flags and 1-30 fill/flush cycles on 2-6 simulated ranks '
+      '(and a few real gloo worlds whose completion callbacks run on gloo threads): '
       'every future is compared exactly with the sum over the requested group and with the real unbucketed allreduce; the backend trace must be an order-preserving, capacity-respecting segmentation; '
       'a second flush must issue nothing.',
       'All members of a group submit the same tensors for that group in the same order; distinct groups means distinct member sets.', 'DESIGN.md §3 C08')
 
-check('C13', 'simdist', 'exploration', 'structural invariant at quiescent points (walk of tensors held per layer vs is_grad_worker / memory_usage) + per-step trace accounting by group class',
+check('C13', 'simdist', 'exploration', 'structural invariant at quiescent points (walk of tensors held per layer vs is_grad_worker / memory_usage; simulated and real gloo ranks) + per-step trace accounting by group class',
       'After every step of generated multi-rank runs: a rank holds second-order bytes for a layer iff it is a gradient worker, memory_usage() equals the bytes walked; the backend trace per step and rank '
       'is accounted by group class: only factor allreduces of the exact volume on the default group on factor steps, only inverse broadcasts (right volume, root) in gradient-worker groups on inverse steps, '
       'only gradient broadcasts in receiver groups; nothing in a world of one.',
-      'Held tensors = reachable from vars(layer); simdist stands in for the backend; histories are construction + steps.', 'DESIGN.md §3 C13')
+      'Held tensors = reachable from vars(layer); simdist stands in for the backend; histories are construction + steps, 30% with a checkpoint restored into a fresh preconditioner in between.', 'DESIGN.md §3 C13')
 
 check('C04', 'refmodel', 'exploration', 'runtime value oracle: float64 factor recurrence recomputed from harness-captured layer inputs / output-gradients, on one and on 2-4 simulated ranks',
       'After every step (and around eval passes) the factors in state_dict() are compared with decay*previous+(1-decay)*mean second moment (identity start, micro-batch and cross-rank mean, '
